@@ -114,7 +114,8 @@ fn run_schedule(spec: &Spec) -> Vec<(String, String)> {
             return v;
         }
     }
-    common::machinery("could not bring the in-flight connections to their progress points in three attempts")
+    // (reported as a machinery error at the end of the run, unless another schedule shows a violation)
+    vec![("machinery:setup".into(), format!("could not bring the in-flight connections of schedule {} to their progress points in three attempts", serde_json::to_string(spec).unwrap_or_default()))]
 }
 
 /// A (cooperating, at point spec.a) and F (a status client whose handshake has been sent) are in progress;
@@ -313,7 +314,7 @@ fn run_via_start(spec: &Spec) -> Vec<(String, String)> {
             return v;
         }
     }
-    common::machinery("could not bring connection A to its progress point in three attempts (passage::start)")
+    vec![("machinery:setup".into(), "could not bring connection A to its progress point in three attempts (passage::start)".into())]
 }
 
 fn run_via_start_once(spec: &Spec) -> Option<Vec<(String, String)>> {
@@ -464,6 +465,10 @@ pub fn run(cli: Cli) -> ! {
         }
         let v = if s.via_start { run_via_start(s) } else { run_schedule(s) };
         for (k, t) in v {
+            if k.starts_with("machinery:") {
+                rep.inconclusive(&t);
+                continue;
+            }
             rep.violation(Violation { key: k, text: format!("{t}; schedule {}", serde_json::to_string(s).unwrap()), replay: json!({"spec": s}), weight: i as u64 });
         }
     });
